@@ -12,8 +12,10 @@ from props import gen_c17 as G
 class C17(Prop):
     id = "C17"
     title = "A program loaded from a saved binary equals what its source compiles to"
-    lean_modules = ["NV.C17.Props", "NV.C17.BinFileLemmas", "NV.C17.Witness", "NV.C17.SpecTests"]
+    lean_modules = ["NV.C17.Props", "NV.C17.BinFileLemmas", "NV.C17.Top", "NV.C17.Witness", "NV.C17.SpecTests"]
     theorems = [
+        "NV.C17.model_use_passes_stale_clause",
+        "NV.C17.model_save_passes_outdated_clause",
         "NV.C17.never_stale",
         "NV.C17.never_stale_transitive",
         "NV.C17.fresh_binary_used",
